@@ -117,6 +117,40 @@ LAWS: List[Tuple[str, str, str]] = [
     ("partial application",
      "def g(x, y):\n    return x - y\ndef f(df):\n    return df['a'].apply(functools.partial(g, y=2))\n",
      "def f(df):\n    return df['a'] - 2\n"),
+    ("DataFrame.eval of an expression == the column arithmetic",
+     "def f(df):\n    return df.eval('a - b')\n",
+     "def f(df):\n    return df['a'] - df['b']\n"),
+    ("DataFrame.eval with assignments (later lines see earlier ones; series methods allowed)",
+     "def f(df):\n    return df.eval('c = a + b\\nd = c.shift(1)')['d']\n",
+     "def f(df):\n    return (df['a'] + df['b']).shift(1)\n"),
+    ("query string == boolean mask",
+     "def f(df):\n    return df.query('a > 1 and b != 3')['k']\n",
+     "def f(df):\n    return df[(df['a'] > 1) & (df['b'] != 3)]['k']\n"),
+    ("Series.groupby(key series over the same rows) == frame.groupby(key column)[value column]",
+     "def f(df):\n    return df['a'].groupby(df['k']).sum()\n",
+     "def f(df):\n    return df.groupby('k')['a'].sum()\n"),
+    ("a function object applied to a column == its __call__ body",
+     "class G:\n    def __init__(self, y):\n        self.y = y\n    def __call__(self, x):\n        return x - self.y\ndef f(df):\n    return df['a'].apply(G(2))\n",
+     "def f(df):\n    return df['a'] - 2\n"),
+    ("last match of a forward scan == first match of the reversed scan (next over a filtered generator)",
+     "def f(df):\n    arr = df[['a', 'b']].to_numpy()\n    def g(t):\n        r = -1\n        for row in arr:\n            if row[0] <= t:\n                r = row[1]\n        return r\n    return df['k'].apply(g)\n",
+     "def f(df):\n    arr = df[['a', 'b']].to_numpy()\n    def g(t):\n        return next((row[1] for row in arr[::-1] if row[0] <= t), -1)\n    return df['k'].apply(g)\n"),
+    ("where keeps the name of the series (a named series used as a frame carries its own values)",
+     "def f(df):\n    return df['a'].where(df['a'] > 1, 0).to_frame()['a']\n",
+     "def f(df):\n    return df['a'].where(df['a'] > 1, 0)\n"),
+]
+
+# laws used by RULES (not by the normal form): the two programs are only run under the real pandas and must agree on every frame
+RULE_LAWS: List[Tuple[str, str, str]] = [
+    ("melt == the concatenation of one copy of the rows per value column (T.melt_pieces, C14)",
+     "def f(df):\n    m = df[['k', 'a', 'b']].melt(id_vars=['k'], value_vars=['a', 'b'], var_name='v', value_name='t')\n    return m['t'] * 10 + m['k'] + m['v'].eq('a')\n",
+     "def f(df):\n    p = pd.concat([df[['k']].assign(t=df['a'], v='a'), df[['k']].assign(t=df['b'], v='b')], ignore_index=True)\n    return p['t'] * 10 + p['k'] + p['v'].eq('a')\n"),
+    ("markers as column labels: rename to +-v before melt == replace after melt (C07 reference sweeps)",
+     "def f(df):\n    return df[['a', 'b']].rename(columns={'a': 1, 'b': -1}).melt(var_name='st', value_name='t')['st'].cumsum()\n",
+     "def f(df):\n    return df[['a', 'b']].melt(var_name='st', value_name='t').replace({'a': 1, 'b': -1})['st'].cumsum()\n"),
+    ("an inner join on K: restricting ONE side to K in S restricts the pairs as restricting both does (the same multiset of pairs; C15)",
+     "def f(df):\n    L, R = df[df['a'] > 1][['k', 'a']], df[df['a'] <= 1][['k', 'b']]\n    S = [0, 2]\n    return pd.merge(L[L['k'].isin(S)], R[R['k'].isin(S)], on='k', how='inner').eval('a * 10 + b').sort_values().reset_index(drop=True)\n",
+     "def f(df):\n    L, R = df[df['a'] > 1][['k', 'a']], df[df['a'] <= 1][['k', 'b']]\n    S = [0, 2]\n    return L[L['k'].isin(S)].join(R.set_index('k'), on='k', how='inner').reset_index(drop=True).eval('a * 10 + b').sort_values().reset_index(drop=True)\n"),
 ]
 
 NONLAWS: List[Tuple[str, str, str]] = [
@@ -200,6 +234,12 @@ def run(db, with_concrete: bool = True) -> Dict[str, Any]:
             res["failures"].append(f"LAW '{name}' is not a law under this pandas (the two programs differ on a frame)")
         elif not same:
             res["failures"].append(f"LAW '{name}': the evaluator gives different terms")
+    res["rule_laws"] = {}
+    for name, a, b in (RULE_LAWS if with_concrete else []):
+        agree = concrete(a, frames) == concrete(b, frames) and not all(isinstance(x, tuple) and x and x[0] == "raised" for x in concrete(a, frames))
+        res["rule_laws"][name] = {"agree_under_pandas": agree}
+        if not agree:
+            res["failures"].append(f"RULE LAW '{name}' does not hold under this pandas")
     for name, a, b in NONLAWS:
         sa_, sb_ = symbolic(db, a), symbolic(db, b)
         same = sa_ == sb_
@@ -217,7 +257,7 @@ if __name__ == "__main__":
     from sa.core.progdb import ProgramDB
     import os
     r = run(ProgramDB(os.environ.get("HTA_REPO", "/repo")), "--no-concrete" not in sys.argv)
-    for k in ("laws", "nonlaws"):
+    for k in ("laws", "rule_laws", "nonlaws"):
         for n, v in r[k].items():
             print(k, n, v)
     for f in r["failures"]:
